@@ -1042,6 +1042,10 @@ def check_C07_all(rep, fl):
     # every charge is the outcome of an admission decision: only add() charges a key (R01.3)
     import props_store as _ps
     _ps.keep_rules(rep, fl, check_C01, {"R01.3"})
+    # "less popular": popularity is what the lookups of every handle have recorded - all handles feed one lookup buffer
+    # and one policy (a per-handle buffer dies with its handle, unflushed)
+    import props_cache as _pc
+    _pc.check_handle_sharing(rep, fl, rule="R07.9", fields=("get_buf", "policy"))
     # "when there is room" / "only while room is still lacking": room is max_cost - used - cost, with its sign
     check_room_left(rep, fl)
     # R07.7: what the policy decides is carried out - every victim leaves the store (and goes to on_evict), whether
